@@ -25,8 +25,10 @@ def prove(ctx, spec_modules, prop, lemma_groups=()):
     rep = prove_functions(spec_modules, keys, tier=ctx.tier, lemma_groups=lemma_groups)
     ctx.add_proof_report(rep)
     ctx.notes.setdefault("hygiene", {}).update(rep["hygiene"])
-    ctx.notes["proved_functions"] = sorted({o["name"].split("/")[1] if "/" in o["name"] else o["name"]
-                                            for o in rep["obligations"] if o["status"] == "discharged" and "::" in o["name"]})
+    ctx.notes["proved_functions"] = sorted({o["name"].split("/", 1)[1].rsplit("/", 1)[0]
+                                            for o in rep["obligations"] if "::" in o["name"]}
+                                           - {o["name"].split("/", 1)[1].rsplit("/", 1)[0]
+                                              for o in rep["obligations"] if "::" in o["name"] and o["status"] != "discharged"})
     for a in STD_ASSUMPTIONS:
         if a not in ctx.assumptions:
             ctx.assumptions.append(a)
